@@ -6,16 +6,21 @@ from ..runner import EngineSpec, PropSpec, Hit
 from .. import gen_ledger
 from . import register
 
-ACCTS, KEYS, VALS, CODES = gen_ledger.ACCTS, gen_ledger.KEYS, ["v1", "v2", "w", "zz"], gen_ledger.CODES
+# values that begin with the tail of a longer key, so that key/value boundaries can shift ("k"+"1v1" = "k1"+"v1")
+ACCTS, KEYS, VALS, CODES = gen_ledger.ACCTS, gen_ledger.KEYS, ["v1", "v2", "w", "zz", "1v1", "2w", "yw"], gen_ledger.CODES
 
 
-def change_set(r):
-    """a set of final writes: distinct (account, field) targets"""
+def change_set(r, existing=None):
+    """a set of final writes: distinct (account, field) targets; `None` as a storage value = delete (only of keys that
+    exist in the committed base, otherwise it would not be a change)"""
     cs = {}
+    live = [t for t, v in (existing or {}).items() if t[1] == "k" and v is not None]
     for _ in range(r.randint(1, 7)):
         a = r.choice(ACCTS)
         k = r.random()
-        if k < 0.6:
+        if k < 0.18 and live:
+            cs[r.choice(live)] = None
+        elif k < 0.6:
             cs[(a, "k", r.choice(KEYS))] = r.choice(VALS)
         elif k < 0.8:
             cs[(a, "bal")] = r.choice([1, 5, 100, 10 ** 20])
@@ -32,7 +37,7 @@ def ops_of(cs, order):
     for t in order:
         v = cs[t]
         if t[1] == "k":
-            ops.append(f"set {t[0]} {t[2]} {v}")
+            ops.append(f"set {t[0]} {t[2]} {v}" if v is not None else f"del {t[0]} {t[2]}")
         elif t[1] == "bal":
             ops.append(f"setbal {t[0]} {v}")
         elif t[1] == "nonce":
@@ -42,10 +47,21 @@ def ops_of(cs, order):
     return ops
 
 
-def perturb(r, cs):
+def perturb(r, cs, existing=None):
     cs2 = dict(cs)
     t = r.choice(list(cs))
-    kind = r.choice(["value", "drop", "add"])
+    kind = r.choice(["value", "drop", "add", "delete-other", "add-delete"])
+    live = [x for x, v in (existing or {}).items() if x[1] == "k" and v is not None and x not in cs]
+    if kind == "delete-other" and cs[t] is None and t[1] == "k" and live:
+        # the same block deletes another existing key instead
+        del cs2[t]
+        cs2[r.choice(live)] = None
+        return cs2, "delete-other"
+    if kind == "add-delete" and live:
+        cs2[r.choice(live)] = None
+        return cs2, "add-delete"
+    if kind in ("delete-other", "add-delete"):
+        kind = "value"
     if kind == "drop" and len(cs) > 1:
         del cs2[t]
         return cs2, "drop"
@@ -57,7 +73,7 @@ def perturb(r, cs):
                 return cs2, "add"
     v = cs[t]
     if t[1] == "k":
-        cs2[t] = r.choice([x for x in VALS if x != v])
+        cs2[t] = r.choice([x for x in VALS if x != v])      # a delete becomes a write of a value
     elif t[1] == "bal":
         cs2[t] = v + 1
     elif t[1] == "nonce":
@@ -82,19 +98,19 @@ def gen_state(rng, n, tier):
             base += ops_of(b, list(b)) + ["finalise", "flush", f"commit {h}"]
         hbase = sum(1 for o in base if o.startswith("commit"))
         # only real changes relative to the committed base count as changes
-        cs = {t: v for t, v in change_set(r).items() if bstate.get(t) != v}
+        cs = {t: v for t, v in change_set(r, bstate).items() if bstate.get(t) != v}
         if not cs:
             cs = {("a2", "k", "xy"): "zz"} if bstate.get(("a2", "k", "xy")) != "zz" else {("a2", "k", "xy"): "w"}
         order1 = list(cs)
         order2 = list(cs)
         r.shuffle(order2)
-        cs3, kind = perturb(r, cs)
+        cs3, kind = perturb(r, cs, bstate)
         for _ in range(20):
             # the perturbed set must differ from the original as a set of real changes
             real3 = {t: v for t, v in cs3.items() if bstate.get(t) != v}
             if real3 != cs:
                 break
-            cs3, kind = perturb(r, cs)
+            cs3, kind = perturb(r, cs, bstate)
         else:
             cs3, kind = dict(cs), "none"
             cs3[("a0", "bal")] = 12345
@@ -119,6 +135,8 @@ def gen_state(rng, n, tier):
                     t = r.choice([t for t in order]) if order else None
                     if t and t[1] == "k":
                         ops.append(f"set {t[0]} {t[2]} {r.choice(VALS)}")
+                        if r.random() < 0.3:
+                            ops.append(f"del {t[0]} {t[2]}")
                 elif variant == "noop-account-write":
                     # an account write that leaves the account as it is must not matter
                     a = r.choice(ACCTS)
@@ -135,6 +153,44 @@ def gen_state(rng, n, tier):
 
 
 ROOT = re.compile(r"root=(0x[0-9a-f]+)")
+
+
+def _segments(ops):
+    segs, cur = [], None
+    for o in ops:
+        if o == "open":
+            if cur is not None:
+                segs.append(cur)
+            cur = []
+        elif cur is not None:
+            cur.append(o)
+    if cur is not None:
+        segs.append(cur)
+    return segs
+
+
+def _storage_preimage(seg):
+    """per account: the concatenation key||value over the storage keys really changed by the last block of the segment,
+    in key order — exactly the bytes the account's state hash is computed from (a delete contributes its key only)"""
+    committed, pending = {}, {}
+    for o in seg:
+        ws = o.split()
+        if ws[0] in ("set", "add"):
+            pending[(ws[1], "" if ws[2] == "~" else ws[2])] = "" if ws[3] == "~" else ws[3]
+        elif ws[0] == "del":
+            pending[(ws[1], "" if ws[2] == "~" else ws[2])] = None
+        elif ws[0] == "commit":
+            committed.update(pending)
+            pending = {}
+    out = {}
+    for (a, k), v in sorted(pending.items()):
+        if committed.get((a, k)) in (None, "") and v in (None, ""):
+            continue                      # absent stays absent (empty values are not persisted): no change
+        if committed.get((a, k)) == v:
+            continue
+        out[a] = out.get(a, "") + k + (v or "")
+    # an account whose changed keys concatenate to nothing (delete of the empty key) hashes like one without storage changes
+    return {a: x for a, x in out.items() if x != ""}
 
 
 def mon_state(h, obs):
@@ -156,7 +212,10 @@ def mon_state(h, obs):
             hits.append(Hit(f"C10/state-root-differs/{variant}",
                             f"the same change set applied in another order with variation '{variant}' gave another root: {roots[0]} vs {roots[1]}"))
         if roots[0] == roots[2]:
-            hits.append(Hit("C10/state-root-insensitive", f"a perturbed change set ({sorted(h.tags)}) gave the same root {roots[0]}"))
+            segs = _segments(h.ops)
+            amb = len(segs) == 3 and _storage_preimage(segs[0]) == _storage_preimage(segs[2])
+            fp = "C10/state-root-insensitive/ambiguous-key-value-concatenation" if amb else "C10/state-root-insensitive"
+            hits.append(Hit(fp, f"a perturbed change set ({sorted(h.tags)}) gave the same root {roots[0]}"))
     return hits
 
 
